@@ -485,7 +485,22 @@ Definition build_d4_graph (toks : list d4token) (n0 : nat) : option (sgraph * na
       end
   end.
 
-(* build_d4_ddnnf + Ddnnf::new: (Ddnnf.nodes as ntype vector, number_of_variables) *)
+(* build_d4_ddnnf + Ddnnf::new: (Ddnnf.nodes as ntype vector, number_of_variables).
+
+   What the exact correspondence (harness kind ld4) found about node-index recycling: it happens
+   (pass 3 reuses the slots of the And nodes that pass 2 removed, in about 8 % of the loads of the
+   quick tier and 19 % of the thorough tier) but load_d4_gen true and load_d4_gen false never
+   differed, and both equal the implementation's vector: NodeIndex::new(0) is fixed before any
+   removal, literals_nx / or_triangles / literal_diff never hold a removed index, the traversals
+   never reach a node created while they run, and rebuild numbers by adjacency order only.
+   Proofs/LoadD4Sem.v proves the semantics theorem for both settings of the flag.
+
+   Fuel: `None` never means "out of fuel" for the traversals: see sg_fuel; del_chain pops one
+   entry per iteration and pushes one entry per edge into a node it removes, so |E| + 1 iterations
+   at most; the rebuild traversal is LoadC2d.dfs_post_order (C10Total.dfs_loop_total).  Not
+   modelled: debug_assert!(!is_cyclic_directed(..)) for cycles the root does not reach (a cycle
+   the root reaches makes get_literals recurse for ever in the Rust and is `None` here:
+   union_children), u32 wrap-around of feature numbers >= 2^32. *)
 Definition load_d4_gen (toks : list d4token) (n0 : nat) : option (circuit * nat) :=
   match build_d4_graph toks n0 with
   | None => None
